@@ -37,7 +37,11 @@ fn run_isolated(prop: &str, case: &Case, plan: Option<Vec<Option<u16>>>) -> Case
     let prop = prop.to_string();
     let case2 = case.clone();
     let (tx, rx) = std::sync::mpsc::channel();
+    let (tid_tx, tid_rx) = std::sync::mpsc::channel::<String>();
     let spawned = std::thread::Builder::new().stack_size(64 << 20).spawn(move || {
+        // lets the watchdog look at this thread's state in /proc
+        let me = std::fs::read_link("/proc/thread-self").map(|p| p.to_string_lossy().into_owned()).unwrap_or_default();
+        let _ = tid_tx.send(me);
         let r = run_case(&prop, &case2, plan.as_deref());
         let _ = tx.send(r);
     });
@@ -52,6 +56,32 @@ fn run_isolated(prop: &str, case: &Case, plan: Option<Vec<Option<u16>>>) -> Case
                 Case::Graph(_) => "graph".into(),
                 Case::Hist(_) => "hist".into(),
             };
+            // Spinning (a loop that never reaches a scheduling point) or blocked on a primitive
+            // the simulator does not own? Only the first is something a simulated run can be
+            // judged on; the second means the simulation cannot represent this code.
+            let task = tid_rx.try_recv().unwrap_or_default();
+            let mut running = 0;
+            for _ in 0..20 {
+                let stat = std::fs::read_to_string(format!("/proc/{task}/stat")).unwrap_or_default();
+                // state is the field after the parenthesised command name
+                let state = stat.rsplit(')').next().and_then(|r| r.trim().chars().next()).unwrap_or('?');
+                if state == 'R' {
+                    running += 1;
+                }
+                std::thread::sleep(Duration::from_millis(10));
+            }
+            if running == 0 {
+                return CaseReport {
+                    harness_error: Some(
+                        "a run blocked on a primitive the simulator does not own (the run thread sleeps in the kernel); shim it in verif_hooks".into(),
+                    ),
+                    hung: true,
+                    blocked_unshimmed: true,
+                    outcome_class: "blocked-unshimmed".into(),
+                    profile,
+                    ..Default::default()
+                };
+            }
             CaseReport { hung: true, outcome_class: "hung".into(), profile, ..Default::default() }
         }
         // the run thread died without a report: a panic outside the simulation
@@ -169,7 +199,7 @@ fn keep_ops(ops: &[Op], keep: &[usize]) -> Vec<Op> {
                 out.push(ops[i].clone());
                 kept_idx.push(i);
             }
-            Op::Request { path, .. } | Op::Save { path } | Op::Close { path } => {
+            Op::Request { path, .. } | Op::Save { path } | Op::EmptyChange { path } | Op::Close { path } => {
                 if open.contains(path) {
                     out.push(ops[i].clone());
                     kept_idx.push(i);
@@ -406,6 +436,11 @@ fn minimize_graph(ctx: &mut Ctx, g: Graph, first: CaseReport) -> (Graph, CaseRep
     while best.files.len() > 1 {
         let mut cand = best.clone();
         cand.files.pop();
+        let n = cand.files.len();
+        cand.hidden.retain(|i| *i < n);
+        if let Some(sh) = cand.second_hidden.as_mut() {
+            sh.retain(|i| *i < n);
+        }
         match ctx.fails(&Case::Graph(cand.clone()), None) {
             Some(r) => {
                 best = cand;
@@ -414,12 +449,13 @@ fn minimize_graph(ctx: &mut Ctx, g: Graph, first: CaseReport) -> (Graph, CaseRep
             None => break,
         }
     }
-    for k in 0..2 {
+    for k in 0..4 {
         let mut cand = best.clone();
-        if k == 0 {
-            cand.include_dir = None;
-        } else {
-            cand.unreadable.clear();
+        match k {
+            0 => cand.include_dir = None,
+            1 => cand.unreadable.clear(),
+            2 => cand.second_hidden = None,
+            _ => cand.hidden.clear(),
         }
         if cand != best {
             if let Some(r) = ctx.fails(&Case::Graph(cand.clone()), None) {
